@@ -125,8 +125,50 @@ def interleaving(kind, seed, steps=25):
     return fails
 
 
+def foreign_reserved_key():
+    """A positive state has no unitary dictionary, so "unitary_dict" is an ordinary metadata key for it: saving, loading
+    and saving again behave as for any other key."""
+    import tempfile, shutil, os
+    from qucumber.nn_states import PositiveWaveFunction
+    tmp = tempfile.mkdtemp(prefix="vf_c11k_")
+    f = []
+    try:
+        st = PositiveWaveFunction(2, 2, gpu=False)
+        p1, p2, p3 = (os.path.join(tmp, "f%d.pt" % i) for i in (1, 2, 3))
+        try:
+            st.save(p1, metadata={"unitary_dict": "a note", "run": 3})
+        except ValueError:
+            return []                      # refused outright: nothing to follow up
+        had = hasattr(st, "unitary_dict")
+        st.load(p1)
+        if hasattr(st, "unitary_dict") != had:
+            f.append(("load of a file whose metadata has the key 'unitary_dict' gave a positive state that attribute", None))
+        st.save(p2)
+        keys = sorted(torch.load(p2, weights_only=False).keys())
+        if keys != ["rbm_am"]:
+            f.append(("a save without metadata after that load wrote the keys %s" % keys, None))
+        try:
+            st.save(p3, metadata={"unitary_dict": "a note", "run": 3})
+            got = torch.load(p3, weights_only=False)
+            if got.get("unitary_dict") != "a note" or got.get("run") != 3:
+                f.append(("the same metadata saved again after the load is not what the file holds", None))
+        except ValueError as e:
+            f.append(("the same metadata is refused after the load: %s" % e, None))
+        st2 = PositiveWaveFunction.autoload(p1, gpu=False)
+        st2.save(p2)
+        if sorted(torch.load(p2, weights_only=False).keys()) != ["rbm_am"]:
+            f.append(("a state made by autoload from that file saves extra keys", None))
+    finally:
+        shutil.rmtree(tmp, ignore_errors=True)
+    return f
+
+
 def native_check(quick=True):
     fails, n = [], 0
+    f = foreign_reserved_key()
+    n += 1
+    if f:
+        fails.append((("metadata key 'unitary_dict' on a positive state: save, load, save",), f[:2]))
     from drivers import C17 as D17
     f = D17.failed_save() + D17.late_metadata() + D17.relative_folder()
     n += 3
